@@ -422,7 +422,7 @@ class World:
         post_bits = {n: model.bits(self.slots[n].live) for n in dict.fromkeys(names)}
         # re-ask
         if step.get("repeat"):
-            allowed = (not binary) or regime["binary_t2"]
+            allowed = (not binary) or regime["binary_t2"] or bool(step.get("force_t2"))
             if allowed:
                 out2 = self._call(step, lives, idx, "repeat")
                 ans2 = ops.normalise(*out2)
